@@ -284,7 +284,7 @@ theorem sim_while {n m : Nat} (hle : m ≤ n) (hB : BlockSim ω mid n m) {D ds h
     SSim ω mid D ds h0 s σ (evalStmt (n+1) (.while ln cond body)) (execS (m+1) (.while ln cond body)) := by
   simp only [evalStmt, execS]
   refine sSim_line _ _ _ hinv fun s0 hinv0 => ?_
-  exact sim_then_null (sim_whileLoop _ _ (fun s σ hi => sim_whileStep hle hB cond body h1 h2 hi) m n hle s0 σ hinv0)
+  exact sim_then_null (sim_whileLoop _ _ (fun s σ hi => sSim_line _ _ _ hi fun s1 hi1 => sim_whileStep hle hB cond body h1 h2 hi1) m n hle s0 σ hinv0)
     (fun _ _ _ _ h => h) (fun _ _ h => h.elim)
 
 end
